@@ -76,12 +76,19 @@ def case_task(states):
                 nel = math.prod(shape)
                 mu = torch.randn(rows, *shape, generator=g, dtype=torch.float64)
                 ls = 0.5 * torch.randn(rows, *shape, generator=g, dtype=torch.float64)
-                x = torch.randn(rows, *shape, generator=g, dtype=torch.float64)
+                if rows >= 2:
+                    ls.view(rows, -1)[1, 0] = -8.0    # a very confident coordinate (std 3.4e-4)
+                    ls.view(rows, -1)[1, -1] = 2.0
+                x = mu + torch.exp(ls) * torch.randn(rows, *shape, generator=g, dtype=torch.float64)
                 models = []
                 if bool(par["conditional"]):
                     d = D.ConditionalDiagonalNormal(shape)
                     ctx = torch.cat([mu.reshape(rows, -1), ls.reshape(rows, -1)], dim=1)
                     models.append(("ConditionalDiagonalNormal", d, ctx, mu, ls))
+                    if len(shape) >= 2:
+                        # structured context: parameters split along the LAST axis of an encoder output that
+                        # keeps the event's leading dimensions ([rows, 2, 2*3] for event shape [2, 3])
+                        models.append(("ConditionalDiagonalNormal/structured-context", D.ConditionalDiagonalNormal(shape), torch.cat([mu, ls], dim=-1), mu, ls))
                 else:
                     z = torch.zeros(rows, *shape, dtype=torch.float64)
                     models.append(("StandardNormal", D.StandardNormal(shape), None, z, z))
@@ -158,6 +165,43 @@ def case_task(states):
                         p_.add_(0.3 * torch.randn(p_.shape, generator=g, dtype=torch.float64))
                 m.eval()
                 ctxs = torch.randn(rows, 2, generator=g, dtype=torch.float64) if rows else [None]
+                if k >= 2:
+                    # ancestral sampling: the component of feature f must be drawn with the mixture weights the
+                    # density uses (softmax of the logits given the features sampled so far)
+                    import torch.distributions as TD
+
+                    seen = []
+                    orig_cat = TD.Categorical
+
+                    class Spy(orig_cat):
+                        def __init__(self, *a, **kw):
+                            super().__init__(*a, **kw)
+                            seen.append(self.probs.detach().clone())
+
+                    import nflows.nn.nde.made as nde_made
+
+                    nde_made.distributions.Categorical = Spy
+                    import copy
+
+                    m32 = copy.deepcopy(m).float()   # the sampler allocates float32 tensors
+                    c32 = ctxs.float() if rows else None
+                    try:
+                        with torch.no_grad():
+                            smp = m32.sample(3, c32) if rows else m32.sample(3)
+                    finally:
+                        nde_made.distributions.Categorical = orig_cat
+                    flat = smp.reshape(-1, dd)
+                    cflat = c32.repeat_interleave(3, dim=0) if rows else None
+                    with torch.no_grad():
+                        outp = m32._made.forward(flat, context=cflat).reshape(flat.shape[0], dd, k, 3)
+                    want = torch.softmax(outp[..., 0], dim=-1)
+                    if len(seen) != dd:
+                        fail("sampler", "MADEMoG.sample built %d categorical distributions for %d features" % (len(seen), dd))
+                    else:
+                        for f_ in range(dd):
+                            if seen[f_].shape != want[:, f_].shape or not torch.allclose(seen[f_], want[:, f_], atol=1e-5):
+                                fail("sampler", "MADEMoG(features=%d, components=%d): feature %d is sampled with component probabilities %s, the density's mixture weights are %s" % (dd, k, f_, seen[f_][0].tolist(), want[0, f_].tolist()))
+                                break
                 for r in range(max(rows, 1)):
                     c = ctxs[r : r + 1] if rows else None
                     f = (lambda q: m.log_prob(q, c.expand(q.shape[0], -1))) if rows else (lambda q: m.log_prob(q))
